@@ -180,7 +180,8 @@ def _trace_module_source_file(module: str) -> str | None:
 
             try:
                 module_spec = importlib.util.find_spec(module)
-            except ImportError:
+            except (ImportError, ValueError):
+                # ValueError e.g. for __main__, whose __spec__ is None
                 return None
 
             if module_spec is None:
